@@ -133,6 +133,9 @@ def resolve_method(cls, name, after=None):
     """contract of method `name` for objects of real class `cls` (MRO order; `after` = super() start)"""
     mro = list(cls.__mro__)
     if after is not None: mro = mro[mro.index(after) + 1:]
+    else:
+        c = C.CONTRACTS.get(f'{cls.__name__}.{name}')       # a contract stated for this very class (proof instance)
+        if c is not None: return c
     for k in mro:
         if name in vars(k):
             obj = vars(k)[name]
@@ -213,10 +216,26 @@ def bind_args(ex, st, k, recv, pos, named, stars, sargs, node):
     pos = list(pos)
     if recv is not None and ps and ps[0].name in ('self', 'cls'):
         pos = [recv] + pos
+    symbolic = None
     for sa in sargs:
         if isinstance(sa, PTuple): pos.extend(sa.items)
         elif isinstance(sa, PConst) and isinstance(sa.obj, tuple): pos.extend(PConst(x) for x in sa.obj)
+        elif symbolic is None and sa is sargs[-1] and (isinstance(sa, PSeq) or (isinstance(sa, ZV) and sa.kind == 'val')):
+            symbolic = sa
         else: raise Unsupported('*args of symbolic length at a contract call')
+    if symbolic is not None:
+        # f(*seq) with a sequence of symbolic length: it has to fill exactly the remaining positional parameters
+        arr, n = seq_of(symbolic, st)
+        need = len([p for p in ps if not p.kwonly]) - len(pos)
+        if varargs is not None or need < 0 or any(p.default is not REQ for p in [p for p in ps if not p.kwonly][len(pos):]):
+            raise Unsupported('*args of symbolic length into a variadic / defaulted signature')
+        outs = []
+        for s1, fits in ex.fork(st, n == need, f'L{node.lineno}.star_len'):
+            if not fits:
+                outs.append((s1, Raise(PExc('TypeError', val=Val.Obj(fresh('exc', IntSort())), where='call')))); continue
+            more = [ZV('val', arr[IntVal(i)]) for i in range(need)]
+            outs.extend(bind_args(ex, s1, k, None, pos + more, named, stars, [], node))
+        return outs
     def terr(s): return Raise(PExc('TypeError', val=Val.Obj(fresh('exc', IntSort())), where='call'))
     bound = {}
     posparams = [p for p in ps if not p.kwonly]
@@ -1022,3 +1041,19 @@ def _replace(ex, st, recv, pos, named, node):
     if len(pos) == 3 and isinstance(pos[2], PConst) and pos[2].obj == 1:
         return [(st, ZV('str', z3.Replace(ex.as_str(st, recv), ex.as_str(st, pos[0]), ex.as_str(st, pos[1]))))]
     raise Unsupported('str.replace of all occurrences')
+
+
+str_capitalize = Function('str_capitalize', StringSort(), StringSort())
+str_strip = Function('str_strip', StringSort(), StringSort())
+
+
+@method(ZV, 'capitalize')
+def _capitalize(ex, st, recv, pos, named, node):
+    if recv.kind not in ('str', 'val'): return None
+    return [(st, ZV('str', str_capitalize(ex.as_str(st, recv))))]
+
+
+@method(ZV, 'strip')
+def _strip(ex, st, recv, pos, named, node):
+    if recv.kind not in ('str', 'val') or pos: return None
+    return [(st, ZV('str', str_strip(ex.as_str(st, recv))))]
